@@ -528,6 +528,24 @@ def run_struct(ctx, i, layout, rng):
     ok = ok and all(getattr(r, m) is getattr(inst, m) for m in names if m != n)
     ok = ok and all(getattr(inst, m) is vals[m] for m in names)
     ctx.check(ok, 'struct.replace', lambda: dict(field=n, layout=layout))
+  # replace() with no / several named fields: always a NEW instance, every unnamed field carried over
+  for sub in ([], names[:2], names):
+    upd = {n: ('replaced' if n in statics else jnp.asarray(43.0)) for n in sub}
+    r = inst.replace(**upd)
+    ok = type(r) is cls and r is not inst and all(getattr(r, m) is (upd[m] if m in upd else getattr(inst, m)) for m in names)
+    ctx.check(ok, 'struct.replace:field_subset', lambda: dict(fields=sub, layout=layout, same_object=r is inst))
+  if len(layout) <= 4 and layout[3] == 0:
+    # the non-default frozen=False spelling: a snapshot taken with replace() must not follow later in-place assignments
+    from flax import struct
+    live_cls = struct.dataclass(type('Live', (), {'__annotations__': {'count': object, 'tag': object}, 'tag': struct.field(pytree_node=False, default='t')}), frozen=False)
+    live = live_cls(count=0)
+    snaps = []
+    for k in range(3):
+      snaps.append(live.replace())
+      live.count = live.count + 1
+    ctx.op('struct.replace(frozen=False)')
+    ctx.check([s_.count for s_ in snaps] == [0, 1, 2] and live.count == 3, 'struct.replace:snapshot_aliases_original',
+              lambda: dict(snapshots=[s_.count for s_ in snaps]))
   # leaves are exactly the data fields, in declaration order
   leaves, td = jax.tree_util.tree_flatten(inst)
   want = [vals[n] for n in [f.name for f in dataclasses.fields(cls)] if n not in statics]
